@@ -85,8 +85,12 @@ CapJ2(x) == IF x <= MaxJ2 THEN x ELSE IF (x - MaxJ2) % 2 = 0 THEN MaxJ2 ELSE Max
 \* resonance spin: fermion number of its leaves + level of its chain, shifted by size
 ResJ2(fin, S, lev) == CapJ2(OddOver(fin, S) + 2 * ((lev + Cardinality(S) - 2) % 3))
 PBQSeq == << <<"none", 1>>, <<"none", -1>>, <<"top", 1>>, <<"all", 1>> >>
-IdentChoices == {{}, {{1, 2}}, {{2, 3}}}
-IdentIdx(x) == IF x = {} THEN 0 ELSE IF x = {{1, 2}} THEN 1 ELSE 2
+\* identical-particle declarations: a set of disjoint GROUPS of leaves (tf-pwa's
+\* data.identical_particles is a list of lists): none, one pair, one group of three,
+\* and for n = 4 two pairs (the symmetrisation then runs over the PRODUCT of the groups'
+\* permutations: exchanging one pair only, the other only, and both)
+IdentSeq(n) == IF n = 3 THEN << {}, {{1, 2}}, {{2, 3}}, {{1, 2, 3}} >>
+               ELSE << {}, {{1, 2}}, {{2, 3}}, {{1, 2}, {3, 4}}, {{1, 3}, {2, 4}}, {{1, 2, 3}} >>
 
 \* The full product (final spins x top spin x parity pattern x resonance levels x
 \* identical pairs x chain sets) has several 10^5 members.  The enumerated family
@@ -97,11 +101,11 @@ IdentIdx(x) == IF x = {} THEN 0 ELSE IF x = {{1, 2}} THEN 1 ELSE 2
 \* ones and of Offset, so that they vary quasi-independently; Thin keeps every
 \* Thin-th tuple.  Other values of Offset give other slices of the full product.
 Free(n) ==
-    {p \in [fin : FinVectors(n), ident : IdentChoices, rep : 1..(IF n = 3 THEN Reps3 ELSE Reps4)] :
-        \A pr \in p.ident : \A i, j \in pr : p.fin[i] = p.fin[j]}
+    {p \in [fin : FinVectors(n), ii : 1..Len(IdentSeq(n)), rep : 1..(IF n = 3 THEN Reps3 ELSE Reps4)] :
+        \A pr \in IdentSeq(n)[p.ii] : \A i, j \in pr : p.fin[i] = p.fin[j]}
 Mix(h, x) == (h * 31 + x + 7) % 1000003
 Hash(n, ci, p) ==
-    LET h1 == Mix(Mix(Mix(Mix(17, Offset % 100000), n), ci), IdentIdx(p.ident))
+    LET h1 == Mix(Mix(Mix(Mix(17, Offset % 100000), n), ci), p.ii - 1)
         h2 == Mix(Mix(Mix(Mix(h1, p.fin[1]), p.fin[2]), p.fin[3]), IF n = 4 THEN p.fin[4] ELSE 5)
     IN Mix(Mix(h2, p.rep), 11)
 Digit(h, base, div) == (h \div div) % base
@@ -122,7 +126,7 @@ Expand(n, ci, p) ==
                      [form |-> cs[k],
                       res |-> {<<T, ResJ2(p.fin, T, lev[k]), q>> : T \in cs[k] \ {Full(n)}}]],
         pb |-> pbq[1],
-        ident |-> p.ident,
+        ident |-> IdentSeq(n)[p.ii],
         model |-> Digit(h, NModels, 648)]
 
 Catalogue ==
@@ -154,7 +158,8 @@ SameQN(s, i, j) == s.fin[i] = s.fin[j]
 RotNames == {"RotX90", "RotZ60", "RotGen"}
 BoostNames == {"BoostZ", "BoostGen"}
 ParityOK(s) == s.n = 3 \/ ConservesParity(s)
-SwapOK(s, i, j) == i < j /\ {i, j} \in s.ident
+SameGroup(s, i, j) == \E g \in s.ident : {i, j} \subseteq g
+SwapOK(s, i, j) == i < j /\ SameGroup(s, i, j)
 Enabled(s) ==
     {<<g, 0, 0>> : g \in RotNames \cup BoostNames}
     \cup (IF ParityOK(s) THEN {<<"Parity", 0, 0>>} ELSE {})
@@ -191,6 +196,7 @@ NextFrame ==
 TypeOKFrame ==
     /\ st.n \in NSet /\ Len(st.fin) = st.n /\ Len(st.chains) \in 1..3
     /\ \A k \in 1..Len(st.chains) : st.chains[k].form \in FormsOf(st.n)
+    /\ \A g, g2 \in st.ident : g # g2 => g \cap g2 = {}
     /\ Len(word) <= MaxWord /\ det \in {-1, 1}
     /\ \A i \in 1..Len(word) : word[i] \in Enabled(st)
 \* theorem of the construction rule
@@ -198,7 +204,7 @@ FermionOK == FermionConsistent(st)
 \* the enabling table is the property's applicability condition, literally
 ParityTable == (<<"Parity", 0, 0>> \in Enabled(st)) <=> (st.n = 3 \/ \A v \in Vertices(st) : ~Breaks(st, v[2]))
 SwapTable == \A i, j \in 1..st.n :
-    (<<"Swap", i, j>> \in Enabled(st)) => (i # j /\ {i, j} \in st.ident /\ SameQN(st, i, j))
+    (<<"Swap", i, j>> \in Enabled(st)) => (i # j /\ SameGroup(st, i, j) /\ SameQN(st, i, j))
 \* the discrete shadow of every reachable word is a symmetry of the structure
 WordSound ==
     /\ det = -1 => ParityOK(st)
@@ -231,7 +237,7 @@ RefDiffers(s, ord) == \E l \in Spinning(s) : Ref(s, ord, l) # Ref(s, Ident(Len(s
 
 \* Ordered trees under the binding's daughter convention (the daughter containing the
 \* smallest leaf is listed first in the decay card) and their image under a leaf swap.
-\* SwapAligned: for every declared identical pair, the helicity reference of every
+\* SwapAligned: for every transposition inside a declared identical group, the helicity reference of every
 \* spinning leaf is mapped by the swap onto the reference of the image leaf.  (Probed:
 \* where this fails, tf-pwa's symmetrised density is not frame independent -- the
 \* swapped configuration refers final helicities to a different chain path.)
@@ -239,8 +245,9 @@ OTree(n, f) == {<<T, FirstKid(n, f, T), SecondKid(n, f, T)>> : T \in f}
 SwapLeaf(pr, l) == IF l \in pr THEN CHOOSE m \in pr : m # l ELSE l
 SwapSet(pr, S) == {SwapLeaf(pr, l) : l \in S}
 ImageTree(pr, t) == {<<SwapSet(pr, x[1]), SwapSet(pr, x[2]), SwapSet(pr, x[3])>> : x \in t}
+IdentPairs(s) == {pr \in SUBSET (1..s.n) : Cardinality(pr) = 2 /\ \E g \in s.ident : pr \subseteq g}
 SwapAligned(s) ==
-    \A pr \in s.ident : \A l \in Spinning(s) :
+    \A pr \in IdentPairs(s) : \A l \in Spinning(s) :
         ImageTree(pr, OTree(s.n, Ref(s, Ident(Len(s.chains)), l)))
             = OTree(s.n, Ref(s, Ident(Len(s.chains)), SwapLeaf(pr, l)))
 
@@ -304,6 +311,8 @@ Coverage(S) ==
      pb |-> {s.pb : s \in S}, n |-> {s.n : s \in S},
      nchains |-> {Len(s.chains) : s \in S},
      ident |-> {s.ident # {} : s \in S},
+     idgroups |-> {Cardinality(s.ident) : s \in S},
+     idsize |-> UNION {{Cardinality(g) : g \in s.ident} : s \in S},
      spinident |-> {SwapAligned(s) : s \in {x \in S : x.ident # {} /\ Spinning(x) # {}}},
      parity4 |-> {ParityOK(s) : s \in {x \in S : x.n = 4}}]
 
